@@ -11,7 +11,7 @@ BYTE_SUBS = [0x00, 0x7f, 0x80, 0xff, 0xc1, 0xc2, 0xc3, 0xc4, 0x30, 0x31,
 
 GENERIC_KINDS = ['cut', 'flip', 'flip', 'insert', 'delete', 'dup-range',
                  'splice', 'garbage', 'byte-sub', 'byte-sub', 'first64',
-                 'first64', 'append', 'byte-small']
+                 'first64', 'append', 'byte-small', 'block-repeat']
 BER_KINDS = ['retag', 'len+1', 'len-1', 'len0', 'len-indef', 'len-huge',
              'drop-node', 'dup-node', 'swap-nodes', 'inject-eoc',
              'len-long-form', 'wrap-constructed', 'retag-indef',
@@ -203,6 +203,23 @@ def mutate(data, fault, other=b''):
                                     (data[pos] + 1) & 0xff,
                                     (data[pos] - 1) & 0xff,
                                     data[pos] & 0xf0, data[pos] | 0x0f])
+
+        return bytes(data)
+    elif kind == 'block-repeat':
+        # Self-similar growth: a short block is repeated right behind
+        # itself, optionally with one of its octets moved by one (nested
+        # counts / lengths that differ by one per level).
+        if n:
+            size = rng.choice([2, 3, 3, 4, 6, 8, 12, 16])
+            pos = rng.randrange(max(1, n - size + 1))
+            block = bytearray(data[pos:pos + size])
+
+            if rng.random() < 0.5:
+                at = rng.randrange(len(block))
+                block[at] = (block[at] + rng.choice([1, -1])) & 0xff
+
+            where = pos if rng.random() < 0.5 else pos + size
+            data[where:where] = block * rng.choice([1, 1, 2])
 
         return bytes(data)
     elif kind == 'insert':
